@@ -59,7 +59,7 @@ const (
 )
 
 // verifRequired: the permissions a command type needs (ALL of them), nil = no permission defined.
-// JOIN is special (depends on the voter flag) and handled in verifJoinAllowed.
+// JOIN is special (depends on the voter flag) and handled in verifAuthorized.
 func verifRequired(t proto.Command_Type) []string {
 	switch t {
 	case proto.Command_COMMAND_TYPE_EXECUTE:
